@@ -415,6 +415,12 @@ def model_inputs(eng, ctx, model):
     return vals
 
 
+def _is_def(c):
+    """definitional constraints (fresh m!/r!/txt! constants) are satisfied by construction of the evaluator."""
+    s_ = c.sexpr()[:4000]
+    return ('m!' in s_) or ('r!' in s_) or ('txt!' in s_) or ('q!' in s_)
+
+
 def _point_models(eng, ctx, neg, tries=4):
     """cheap falsification before the full query: fix every input to a simple concrete value and ask whether the path
     condition and the negated claim hold there (all variables fixed: a fast check).  A hit is a counterexample
@@ -441,22 +447,18 @@ def _point_models(eng, ctx, neg, tries=4):
                 continue
             c = [x for x in nice if lo_ <= x <= hi_]
             cand[name] = rng.choice(c) if c else round(rng.uniform(lo_, hi_), 3)
-        # 1. substitute and simplify the negated claim alone (no solver): decides claims without definitional atoms
-        subs = []
-        for name, (v, lo, hi) in ctx.inputs.items():
-            zv = v.z
-            if z3.is_app(zv) and zv.num_args() == 1 and zv.decl().kind() == z3.Z3_OP_TO_REAL:
-                subs.append((zv.arg(0), z3.IntVal(int(cand[name]))))
-            else:
-                subs.append((zv, S.zval(Fraction(cand[name]))))
+        # 1. evaluate the path condition and the negated claim numerically at the point (no solver)
+        from vf.engine.zeval import Evaluator, CannotEval
         try:
-            val = z3.simplify(z3.substitute(neg, *subs))
-        except z3.Z3Exception:
-            val = None
-        if val is not None and z3.is_false(val):
-            continue
-        if val is not None and z3.is_true(val) and not eng.trace:
-            return cand          # no branch decisions on this path: the point is a candidate (the replay decides)
+            ev = Evaluator(dict((str(v.z) if name not in ctx.int_inputs else str(v.z.arg(0)), cand[name])
+                                for name, (v, lo, hi) in ctx.inputs.items()))
+            pc_ok = all(ev.term(c) for c in eng.pc if not _is_def(c))
+            if pc_ok and ev.term(neg):
+                return cand
+            if pc_ok:
+                continue
+        except (CannotEval, ZeroDivisionError, OverflowError, ValueError, z3.Z3Exception):
+            pass
         # 2. otherwise ask the solver with every input fixed
         eng.solver.push()
         try:
